@@ -34,6 +34,9 @@ def comparator_direction(clo):
     body = clo["body"]
     while body["k"] == "Block" and len(body["stmts"]) == 1 and body["stmts"][0]["k"] == "ExprStmt":
         body = body["stmts"][0]["expr"]
+    # `a.len().cmp(&b.len()).then_with(|| ..)` / `.then(..)`: the primary key is the first comparison (the rest only breaks ties)
+    while body["k"] == "MethodCall" and body["method"] in ("then_with", "then") and len(body["args"]) == 1:
+        body = body["recv"]
     if body["k"] != "MethodCall" or body["method"] != "cmp" or len(body["args"]) != 1:
         return None
 
